@@ -110,7 +110,7 @@ func firstTransportWins(c *Ctx) {
 			if !isCall || !call.Call.IsInvoke() || call.Call.Method.Name() != "Supports" {
 				continue
 			}
-			if an.Strip(call.Call.Value) == an.Strip(r.Results[0]) || an.SameVar(call.Call.Value, r.Results[0]) {
+			if an.Strip(call.Call.Value) == an.Strip(r.Results[0]) || an.SameVar(call.Call.Value, r.Results[0]) || sameElement(call.Call.Value, r.Results[0]) {
 				ok = true
 			}
 		}
@@ -239,7 +239,7 @@ func limitHelpersOwnField(c *Ctx) {
 // seekAddsOffset: bytesReader.Seek computes the new position by adding the offset to the chosen base (io.Seeker): the
 // offset parameter is never subtracted.
 func seekAddsOffset(c *Ctx) {
-	c.R.Rule("seek-adds-offset", "transport.(*bytesReader).Seek: every arithmetic use of the offset parameter is an addition to the base position (start: none, current: index, end: length)", 2)
+	c.R.Rule("seek-adds-offset", "transport.(*bytesReader).Seek: every arithmetic use of the offset parameter is an addition to the base position (start: none, current: index, end: length)", 1)
 	fn := c.fn(pkgTransport, "*bytesReader.Seek")
 	if fn == nil {
 		return
@@ -267,7 +267,22 @@ func seekAddsOffset(c *Ctx) {
 				"the offset is not added to the base position: Seek(-4, io.SeekEnd) on a 10-byte upload lands at 14 instead of 6, so a resolver reading a trailer gets no bytes")
 		}
 	}
-	if n < 2 {
+	if n < 1 {
 		c.R.Fail("seek-adds-offset: %d arithmetic uses of offset", n)
 	}
+}
+
+// sameElement: two loads of the same element xs[i] (same slice value, same index value).
+func sameElement(a, b ssa.Value) bool {
+	ua, ok1 := an.Strip(a).(*ssa.UnOp)
+	ub, ok2 := an.Strip(b).(*ssa.UnOp)
+	if !ok1 || !ok2 || ua.Op != token.MUL || ub.Op != token.MUL {
+		return false
+	}
+	ia, ok1 := ua.X.(*ssa.IndexAddr)
+	ib, ok2 := ub.X.(*ssa.IndexAddr)
+	if !ok1 || !ok2 {
+		return false
+	}
+	return (ia.X == ib.X || an.SameVar(ia.X, ib.X)) && (ia.Index == ib.Index || an.SameExpr(ia.Index, ib.Index))
 }
